@@ -4,7 +4,7 @@ from checks import textcomp, rtcomp, rtxcomp, lybcomp, lybtree
 LEAN_TARGETS = ["LyModel.Props.C01", "LyModel.Props.C01Lyb", "LyModel.Props.C01LybTree"]
 AUDIT = ["Audit/C01.lean", "Audit/C01Fn.lean"]
 GENERATED = ["XmlEsc", "JsonEsc", "Consts", "LybConsts", "LybTree"]
-LEAN_TARGETS += ["LyModel.Props.C05Fn", "LyModel.Props.C01FnLyb"]; GENERATED += ["FnUtf8", "FnLyb"]     # functions translated from the C source (tools/c2lean.py), bridged in lean/LyModel/Bridge
+LEAN_TARGETS += ["LyModel.Props.C05Fn", "LyModel.Props.C01FnLyb", "LyModel.Props.C01FnPrint"]; GENERATED += ["FnUtf8", "FnLyb", "FnPrint"]     # functions translated from the C source (tools/c2lean.py), bridged in lean/LyModel/Bridge
 ASSUMPTIONS = ["theorems cover the value-text layer (escaping/lexing of every string), the LYB byte layer and the LYB tree walk (lyb_tree_roundtrip); the XML / JSON "
                "tree walk of libyang's own PARSERS and with-defaults filtering are exercised as laws on the implementation over generated schemas and trees (api_rt), see DESIGN.md §5 C01"]
 TRUSTED = ["Python renderers in tools/checks/rtcomp.py as the independent XML / RFC 7951 JSON encoder"]
@@ -21,7 +21,7 @@ def classify(component, what, case):
 
 
 def run(cx):
-    from checks import fncomp; fncomp.run_fn(cx, ['utf8', 'lyb'])
+    from checks import fncomp; fncomp.run_fn(cx, ['utf8', 'lyb', 'print'])
     textcomp.run_text(cx, want=("xml", "json"), law=("roundtrip",))
     rtcomp.run_rt(cx, laws=("roundtrip",))
     rtxcomp.run_rtx(cx, laws=("roundtrip",))
